@@ -1,12 +1,14 @@
 import AsyncsshModel.Lemmas.ChannelReach
 import AsyncsshModel.Lemmas.ChannelMux
 import AsyncsshModel.Lemmas.ChannelCodec
+import AsyncsshModel.Lemmas.ChannelText
 import AsyncsshModel.Gen.C07
 /-
   C07 — Channel data arrives complete, in order, once, with EOF last.
 
   Model: `Model/Channel.lean` (one endpoint of `asyncssh/channel.py: SSHChannel`), `Model/ChannelSys.lean`
-  (two endpoints + one FIFO link per direction, N channels multiplexed), `Model/ChannelCodec.lean` (UTF-8 layer).
+  (two endpoints + one FIFO link per direction, N channels multiplexed), `Model/ChannelCodec.lean` (UTF-8 layer),
+  `Model/ChannelText.lean` (encodings whose codec keeps state across writes: the byte order mark family).
   All theorems quantify over EVERY event sequence the environment can choose (writes of any size and datatype,
   write_eof, close, pause/resume, pausing from inside `data_received`, delivery order of the two links) and every
   window / maximum packet size: `(Sys.init ca cb).run evs = .ok s` is "s is reachable".
@@ -233,6 +235,77 @@ theorem text_delivered_is_text_written (writes : List (List Nat × DType))
   rw [decodeChunks_tagged, hst]
   exact decodeTagged_writes writes hsc
 
+/-! ### text channels: encodings whose codec keeps state across writes (utf-8-sig, utf-16, utf-32)
+
+  `SSHChannel.write` sends every string through ONE incremental encoder per channel, `_deliver_data` every packet
+  through ONE incremental decoder.  For `utf-8-sig`, `utf-16`, `utf-32` the encoder state is "mark already sent",
+  the decoder state "mark already consumed" (plus the bytes of an incomplete character).  The body codecs UTF-8,
+  UTF-16-LE, UTF-32-LE are modelled byte by byte (`Model/ChannelText.lean`); what is NOT modelled: big-endian
+  streams (CPython's `utf-16` / `utf-32` decoders switch on a `FE FF` mark, its encoders never emit one on a
+  little-endian host), error handlers other than `strict`, and the 8-bit code pages (stateless, one byte per
+  character: exercised by the oracle only). -/
+
+/-- the body codecs invert their encoders, character by character, on every Unicode scalar value -/
+theorem text_codecs_roundtrip (t : ChannelText.TextCodec) (h : t ∈ ChannelText.family) :
+    ∀ cp, isScalar cp → ChannelText.run t.dec t.dec.init (t.enc cp) = some (t.dec.init, [cp]) :=
+  (ChannelText.family_ok t h).2
+
+/-- **Text as written, write by write, every packetisation.**  For each modelled encoding, every sequence of
+    writes (empty ones included) sent through one incremental encoder, and every way `_flush_send_buf` cuts the
+    bytes of each write into packets (`css[i]` = packets of write `i`): the text delivered out of the packets of
+    write `i` is write `i` — the mark reaches the wire once, is consumed once, no character is lost at a packet
+    boundary — and the decoder ends with nothing buffered (`stOf`: the state belonging to the encoder's). -/
+theorem text_as_written_every_packetisation (t : ChannelText.TextCodec) (h : t ∈ ChannelText.family)
+    (ws : List (List Nat)) (hv : ∀ w ∈ ws, ∀ cp ∈ w, isScalar cp) (css : List (List (List Nat)))
+    (hcss : css.map List.flatten = ChannelText.encodeWrites t false ws) :
+    ∃ sent', ChannelText.runWrites t.machine (ChannelText.BomSt.start 0) css =
+      some (ChannelText.stOf t sent', ws) :=
+  ChannelText.writes_roundtrip t isScalar (ChannelText.family_ok t h).1 (ChannelText.family_ok t h).2 false ws hv
+    css hcss
+
+/-- **The whole text, packet boundaries anywhere** (also when a packet carries bytes of two writes, which the
+    receive buffer never produces but a peer implementation may): concatenated text delivered = concatenated text
+    written, and `decoder.decode(b'', True)` at EOF finds nothing pending. -/
+theorem text_stream_any_chunking (t : ChannelText.TextCodec) (h : t ∈ ChannelText.family)
+    (ws : List (List Nat)) (hv : ∀ w ∈ ws, ∀ cp ∈ w, isScalar cp) (cs : List (List Nat))
+    (hcs : cs.flatten = (ChannelText.encodeWrites t false ws).flatten) :
+    ∃ st outs, ChannelText.runChunks t.machine (ChannelText.BomSt.start 0) cs = some (st, outs) ∧
+      outs.flatten = ws.flatten ∧ ChannelText.Clean t st :=
+  ChannelText.stream_roundtrip t isScalar (ChannelText.family_ok t h).1 (ChannelText.family_ok t h).2 ws hv cs hcs
+
+/-- **Witness: encoding every write on its own breaks the text** (`data.encode(encoding)` per write instead of
+    the channel's encoder).  For each mark-emitting encoding and any two non-empty writes, the receiver's decoder
+    strips the first mark only: the text delivered is `w1 ++ U+FEFF ++ w2`, which is not what was written. -/
+theorem per_write_encoding_breaks_text (t : ChannelText.TextCodec) (h : t ∈ ChannelText.markFamily)
+    (w1 w2 : List Nat) (h1 : w1 ≠ []) (h2 : w2 ≠ []) (hv1 : ∀ cp ∈ w1, isScalar cp) (hv2 : ∀ cp ∈ w2, isScalar cp) :
+    ChannelText.run t.machine (ChannelText.BomSt.start 0)
+        (ChannelText.encodeFresh t w1 ++ ChannelText.encodeFresh t w2) =
+        some (ChannelText.BomSt.body t.dec.init, w1 ++ 0xFEFF :: w2) ∧
+      w1 ++ 0xFEFF :: w2 ≠ w1 ++ w2 :=
+  ChannelText.fresh_two_writes t isScalar (ChannelText.markFamily_ok t h).1 (ChannelText.markFamily_ok t h).2.1
+    (ChannelText.markFamily_ok t h).2.2 ChannelText.isScalar_mark w1 w2 h1 h2 hv1 hv2
+
+/-- the same for any number of writes: every non-empty write after the first arrives with U+FEFF in front -/
+theorem per_write_encoding_delivers (t : ChannelText.TextCodec) (h : t ∈ ChannelText.markFamily)
+    (ws : List (List Nat)) (hv : ∀ w ∈ ws, ∀ cp ∈ w, isScalar cp) (x : List Nat)
+    (hx : ChannelText.freshTail ws = 0xFEFF :: x) :
+    ChannelText.run t.machine (ChannelText.BomSt.start 0) (ws.map (ChannelText.encodeFresh t)).flatten =
+      some (ChannelText.BomSt.body t.dec.init, x) :=
+  ChannelText.fresh_decodes t isScalar (ChannelText.markFamily_ok t h).1 (ChannelText.markFamily_ok t h).2.1
+    (ChannelText.markFamily_ok t h).2.2 ChannelText.isScalar_mark ws hv x hx
+
+/-- **Tie to the code**: on a channel with an encoding, `write` encodes with `self._encoder.encode(data)` and
+    `_deliver_data` decodes with `self._decoder.decode(data)`; `set_encoding` creates both with
+    `codecs.getincrementalencoder / getincrementaldecoder (encoding)(errors)`; an empty write returns before the
+    encoder; these are the only uses of the two objects besides the final `decode(b'', True)` at EOF. -/
+theorem text_codec_objects_in_code :
+    Gen.C07.writeUsesChannelEncoder = true ∧ Gen.C07.encoderIsIncremental = true ∧
+    Gen.C07.deliverUsesChannelDecoder = true ∧ Gen.C07.decoderIsIncremental = true ∧
+    Gen.C07.emptyWriteSkipsEncoder = true ∧
+    Gen.C07.codecCallSites = ["_deliver_data: self._decoder.decode(data)",
+      "_flush_recv_buf: self._decoder.decode(b'', True)", "write: self._encoder.encode(cast(str, data))"] := by
+  decide
+
 /-! ### tie to the code: the generated arithmetic -/
 
 /-- the model's packet-size choice and split rule are the expressions read from `_flush_send_buf` -/
@@ -256,5 +329,21 @@ theorem stream_inv_example :
 theorem utf8_example : decodeChunks .s0 [([0xE2, 0x82], none), ([0xAC, 0xF0, 0x9F], some 1), ([0x98, 0x80], none)] =
     some (.s0, [([], none), ([0x20AC], some 1), ([0x1F600], none)]) := by
   decide +kernel
+
+/-- utf-16, writes "a", "", "\u{1F600}" through one encoder, packets of 3, 1, 4 and 2 bytes: text as written -/
+theorem text_utf16_example :
+    ChannelText.encodeWrites ChannelText.utf16 false [[0x61], [], [0x1F600]] =
+      [[0xFF, 0xFE, 0x61, 0x00], [], [0x3D, 0xD8, 0x00, 0xDE]] ∧
+    ChannelText.runWrites ChannelText.utf16.machine (ChannelText.BomSt.start 0)
+      [[[0xFF, 0xFE, 0x61], [0x00]], [], [[0x3D, 0xD8, 0x00, 0xDE]]] =
+      some (ChannelText.BomSt.body ChannelText.St16.s0, [[0x61], [], [0x1F600]]) :=
+  ⟨rfl, rfl⟩
+
+/-- utf-8-sig, "a" and "b" each encoded on its own: the receiver gets "a\uFEFFb" -/
+theorem per_write_encoding_example :
+    ChannelText.run ChannelText.utf8sig.machine (ChannelText.BomSt.start 0)
+      (ChannelText.encodeFresh ChannelText.utf8sig [0x61] ++ ChannelText.encodeFresh ChannelText.utf8sig [0x62]) =
+      some (ChannelText.BomSt.body St.s0, [0x61, 0xFEFF, 0x62]) :=
+  rfl
 
 end AsyncsshModel.Channel
